@@ -356,6 +356,35 @@ def rule_edge_keys(ctx: Ctx) -> None:
     else:
         ctx.fail("edge.keys", m, fn, "_add_edge does not index the new edge as (in_node, out_node, label) under its reg_type",
                  func="CircuitDAG._add_edge", construct="_add_edge: edge_dict entry")
+    # _remove_edge(edge): the graph is a multigraph (two operations can be joined by one wire per shared register), so the removal has to
+    # name the edge with its key — `remove_edge(u, v)` without the key deletes whichever parallel edge was added last
+    fn = repo.anchor(DAG, "CircuitDAG._remove_edge")
+    ctx.touch(m, fn)
+    E = func_params(fn)[1]
+    comps = {}
+    for a_ in ast.walk(fn):
+        if isinstance(a_, ast.Assign) and isinstance(a_.targets[0], ast.Tuple) and norm(a_.value) == E:
+            comps = {norm(t): i for i, t in enumerate(a_.targets[0].elts)}
+    rem = [c for c in calls_in(fn) if call_attr(c) in ("remove_edge", "remove_edges_from") and norm(c.func.value) == "self.dag"]
+    if len(rem) != 1:
+        raise AnalysisError("_remove_edge: the removal from the graph was not found")
+    r_ = rem[0]
+    if call_attr(r_) == "remove_edges_from":
+        okr = len(r_.args) == 1 and isinstance(r_.args[0], (ast.List, ast.Tuple)) and len(r_.args[0].elts) == 1 and \
+            (norm(r_.args[0].elts[0]) == E or (isinstance(r_.args[0].elts[0], ast.Tuple) and [comps.get(norm(x)) for x in r_.args[0].elts[0].elts] == [0, 1, 2]))
+    else:
+        args = list(r_.args) + [k.value for k in r_.keywords if k.arg == "key"]
+        if len(args) == 1 and isinstance(args[0], ast.Starred):
+            okr = norm(args[0].value) == E
+        else:
+            idx = [comps.get(norm(x), int(norm(x.slice)) if isinstance(x, ast.Subscript) and norm(x.value) == E and norm(x.slice).isdigit() else None) for x in args]
+            okr = idx == [0, 1, 2]
+    if okr:
+        ctx.ok("edge.keys", m, r_, what="_remove_edge removes exactly the keyed edge")
+    else:
+        ctx.fail("edge.keys", m, r_, f"_remove_edge removes `{short(r_)}`: the graph is a multigraph and the edge must be named with its key (u, v, key); without "
+                                     f"the key networkx deletes the last-added parallel edge, which may be the other register's wire, while edge_dict loses `{E}`",
+                 func="CircuitDAG._remove_edge", construct="_remove_edge: graph removal without the key")
 
 
 def rule_reach_whole_dag(ctx: Ctx) -> None:
@@ -445,6 +474,58 @@ def rule_validate_shape(ctx: Ctx) -> None:
         else:
             ctx.fail("validate.shape", m, loop, f"validate does not raise exactly when a node with {deg} == 0 is not an {cls_} operation (polarity / class)",
                      func="CircuitDAG.validate", construct=f"validate: {cls_} test polarity")
+
+
+def rule_wire_label_values(ctx: Ctx) -> None:
+    """wire.label-values: the boundary nodes of a wire are named `<type><register>_in/_out`, where <register> is the register's *number*.
+    A label whose register placeholder is a variable ranging over `range(len(<op>.*_registers))` names the wire by the position of the
+    register in the operation's register list instead (c_registers == [1] would address wire c0); the position has to be used to
+    subscript that list.  Likewise a register taken from one list position and its type from another."""
+    repo = ctx.repo
+    m = repo.module(DAG)
+    n = 0
+    for fn in m.functions():
+        for js in [x for x in ast.walk(fn) if isinstance(x, ast.JoinedStr)]:
+            tail = js.values[-1] if js.values else None
+            if not (isinstance(tail, ast.Constant) and isinstance(tail.value, str) and tail.value in ("_in", "_out")):
+                continue
+            fvs = [v for v in js.values if isinstance(v, ast.FormattedValue)]
+            if not fvs:
+                continue
+            n += 1
+            ctx.touch(m, fn)
+            reg = fvs[-1].value
+            bad = None
+            if isinstance(reg, ast.Name):
+                # where does the name range?
+                cur = parent(js)
+                rng = None
+                while cur is not None and not isinstance(cur, ast.FunctionDef):
+                    gens = cur.generators if isinstance(cur, (ast.ListComp, ast.SetComp, ast.GeneratorExp, ast.DictComp)) else []
+                    for g in gens:
+                        if isinstance(g.target, ast.Name) and g.target.id == reg.id:
+                            rng = g.iter
+                    if isinstance(cur, ast.For) and isinstance(cur.target, ast.Name) and cur.target.id == reg.id:
+                        rng = cur.iter
+                    if rng is not None:
+                        break
+                    cur = parent(cur)
+                if rng is not None and isinstance(rng, ast.Call) and call_name(rng) == "range" and len(rng.args) == 1 \
+                        and isinstance(rng.args[0], ast.Call) and call_name(rng.args[0]) == "len" and rng.args[0].args \
+                        and isinstance(rng.args[0].args[0], ast.Attribute) and rng.args[0].args[0].attr.endswith("registers"):
+                    lst = norm(rng.args[0].args[0])
+                    bad = (f"`{short(js)}` names the wire by `{reg.id}`, a position in `{lst}` (it ranges over `{short(rng)}`), not by the register "
+                           f"stored there: an operation on classical/quantum register k != position is spliced into the wrong wire ({lst}[{reg.id}] is the register)")
+            if bad is None and len(fvs) == 2 and isinstance(fvs[0].value, ast.Subscript) and isinstance(reg, ast.Subscript) \
+                    and norm(fvs[0].value.value).endswith("registers_type") and norm(reg.value).endswith("registers") \
+                    and norm(fvs[0].value.slice) != norm(reg.slice):
+                bad = f"`{short(js)}` takes the register type from position `{norm(fvs[0].value.slice)}` and the register from position `{norm(reg.slice)}`"
+            if bad:
+                ctx.fail("wire.label-values", m, js, bad, func=qualname(fn), construct=f"{qualname(fn)}: label {short(js, 50)}")
+            else:
+                ctx.ok("wire.label-values", m, js)
+    if n < 8:
+        raise AnalysisError(f"wire.label-values: only {n} wire labels found in circuit_dag.py (8 confirmed by hand)")
 
 
 def rule_reg_create(ctx: Ctx) -> None:
@@ -580,6 +661,7 @@ def run(ctx: Ctx) -> None:
     rule_group_run_closed(ctx)
     rule_index_keys_stay(ctx)
     rule_reg_create(ctx)
+    rule_wire_label_values(ctx)
     rule_validate_shape(ctx)
     from .c13 import rule_unwrap_order
     rule_unwrap_order(ctx)   # unwrap() decides the register every expanded gate sits on
@@ -636,6 +718,8 @@ _REPLACE_TABLE = ("        for operation, update_entry in (\n"
 
 
 KNOCKOUTS = [
+    Knockout("remove-edge-without-key", DAG, sub_once("        self.dag.remove_edges_from([edge_to_remove])", "        self.dag.remove_edge(edge_to_remove[0], edge_to_remove[1])"), "edge.keys", "without the key"),
+    Knockout("add-classical-wire-by-position", DAG, sub_once('] + [f"c{c}_out" for c in operation.c_registers]', '] + [f"c{i}_out" for i in range(len(operation.c_registers))]'), "wire.label-values", "a position in"),
     Knockout("insert-at-registers-sorted-without-their-types", DAG, sub_once("        register, reg_type = zip(\n            *sorted(zip(operation.q_registers, operation.q_registers_type))\n        )\n        for i in range(len(register)):\n            self._add_reg_if_absent(\n                register=register[i],\n                reg_type=reg_type[i],\n            )\n\n        assert len(edges)", "        for register, reg_type in zip(sorted(operation.q_registers), operation.q_registers_type):\n            self._add_reg_if_absent(register=register, reg_type=reg_type)\n\n        assert len(edges)"), "zip.pairing", "parallel sequence"),
     Knockout("node-dict-drops-empty-keys", DAG, sub_once("            except ValueError:\n                pass\n\n    def _edge_dict_append", "            except ValueError:\n                pass\n            if not self.node_dict[key]:\n                del self.node_dict[key]\n\n    def _edge_dict_append"), "index.key-stays", "deletes node_dict keys"),
     Knockout("edge-index-only-for-new-node-pairs", DAG, sub_once("        self._edge_dict_append(reg_type, (in_node, out_node, label))\n\n    def _remove_edge", "        if not self.dag.has_edge(in_node, out_node):\n            self._edge_dict_append(reg_type, (in_node, out_node, label))\n\n    def _remove_edge"), "own.dag", "conditional"),
